@@ -79,7 +79,7 @@ pub enum HookResult {
     Handled,
 }
 
-pub type Hook = Box<dyn FnMut(&mut RawCtx, &mut Peer, usize, SocketAddrV4, &Krpc) -> HookResult>;
+pub type Hook = Box<dyn FnMut(&mut RawCtx, &mut Shared, usize, SocketAddrV4, &Krpc) -> HookResult>;
 
 pub struct Shared {
     pub peers: Vec<Peer>,
@@ -152,24 +152,16 @@ impl RawNet {
         // hook first (Byzantine behaviour), with the peer temporarily borrowed
         {
             let mut hook = self.hook.borrow_mut();
+            let mut sh = self.shared.borrow_mut();
+            sh.peers[idx].requests.push(ReqLog {
+                t: ctx.now,
+                from,
+                msg: msg.clone(),
+            });
             if let Some(h) = hook.as_mut() {
-                let mut sh = self.shared.borrow_mut();
-                let p = &mut sh.peers[idx];
-                p.requests.push(ReqLog {
-                    t: ctx.now,
-                    from,
-                    msg: msg.clone(),
-                });
-                if let HookResult::Handled = h(ctx, p, idx, from, &msg) {
+                if let HookResult::Handled = h(ctx, &mut sh, idx, from, &msg) {
                     return;
                 }
-            } else {
-                let mut sh = self.shared.borrow_mut();
-                sh.peers[idx].requests.push(ReqLog {
-                    t: ctx.now,
-                    from,
-                    msg: msg.clone(),
-                });
             }
         }
         let reply = {
